@@ -32,6 +32,11 @@ def run(ctx):
     cases.append((0, 0, f2, 'xz three Blocks with growing dictionaries'))
     cases.append((5, 0, xzgen.index([(100 + i, 1000 + i) for i in range(3000)]), 'index decoder 3000 records'))
     cases.append((6, 0, f2, 'file_info'))
+    # several Streams with long Indexes: the limit is on everything the file-info decoder holds, not on one Index at a time
+    ms = b''.join(xzgen.gen_many_blocks(rng, nb, cid=1)[0] for nb in (1500, 2500, 700))
+    cases.append((6, 0, ms, 'file_info three Streams with 1500+2500+700 Blocks'))
+    ms2 = xzgen.gen_many_blocks(rng, 2000, cid=1)[0] + bytes(8) + xzgen.gen_many_blocks(rng, 2000, cid=4)[0]
+    cases.append((6, 0, ms2, 'file_info two Streams with 2000 Blocks each and Stream Padding'))
     base, fails = run_lines(drv, ['mem %d 0 0 %d %s' % (sc, arg, b.hex()) for sc, arg, b, lab in cases])
     viol = []
     for x in fails: viol.append(dict(why='crash in the unlimited run', line=(x[0] or '')[:3000], stderr=x[1][-2000:]))
